@@ -110,9 +110,45 @@ def basis_rules(ck: Checker, modules, public):
     return n_ts
 
 
-def _normalised_at(m, fn, node, x):
+def _normalised_at(m, fn, node, x, _depth=0):
     """Is name `x` guaranteed to hold a GenerationBasis member at `node`?"""
     params = param_names(fn)
+    if x in params and fn.name.startswith('_') and _depth < 3:
+        # a private helper: the typestate of its parameter is that of the argument at every call site in the module
+        sites = []
+        for q2, caller in m.functions.items():
+            for c in calls_in(caller, fn.name):
+                if isinstance(c.func, ast.Name):
+                    sites.append((caller, c))
+        if sites:
+            pos = [a.arg for a in fn.args.posonlyargs + fn.args.args]
+            bad = []
+            for caller, c in sites:
+                arg = next((k.value for k in c.keywords if k.arg == x), None)
+                if arg is None and x in pos and pos.index(x) < len(c.args):
+                    arg = c.args[pos.index(x)]
+                if arg is None:
+                    d = None
+                    for a_, dv in zip((fn.args.posonlyargs + fn.args.args)[::-1], fn.args.defaults[::-1]):
+                        if a_.arg == x:
+                            d = dv
+                    for a_, dv in zip(fn.args.kwonlyargs, fn.args.kw_defaults):
+                        if a_.arg == x:
+                            d = dv
+                    if d is not None and 'GenerationBasis.' in norm(d):
+                        continue
+                    bad.append(f'{caller.name}: no argument for `{x}`')
+                elif 'GenerationBasis.' in norm(arg) and isinstance(arg, ast.Attribute):
+                    continue
+                elif isinstance(arg, ast.Name):
+                    ok2, why2 = _normalised_at(m, caller, c, arg.id, _depth + 1)
+                    if not ok2:
+                        bad.append(f'{caller.name} passes `{arg.id}`: {why2}')
+                else:
+                    bad.append(f'{caller.name} passes `{norm(arg)}`')
+            if not bad:
+                return True, ''
+            return False, f'`{x}` of the private helper {fn.name} is compared raw and ' + '; '.join(bad[:2])
     if x in params:
         # must have been rebound: `if isinstance(x, str): x = GenerationBasis(x.upper())` earlier at top level
         for st in fn.body:
@@ -166,7 +202,7 @@ def run(ck: Checker):
     worklist_rule(ck)
     transpose_rule(ck)
     n_ts = basis_rules(ck, [SUM], public)
-    ck.need(n_ts >= 5, f'only {n_ts} basis comparisons found in summation.py (5 confirmed)')
+    ck.need(n_ts >= 2, f'only {n_ts} basis comparisons found in summation.py (5 on the pinned tree)')
     ck.floor('C07.BASIS-REACH', 10)
     R.check_add_only(ck, 'C07.ADD-ONLY', [SUM, R.ARITH + '._utils'])
     R.check_fresh_labels(ck, 'C07.ADD-ONLY', [SUM])
@@ -178,7 +214,7 @@ def run(ck: Checker):
     R.check_endian(ck, 'C07.ENDIAN', [SUM], public, ENDIAN_EXEMPT)
     ck.floor('C07.ENDIAN', 5)
     n = R.check_placeholders(ck, 'C07.PLACEHOLDER', [SUM])
-    ck.need(n >= 2, f'only {n} placeholder-using functions of summation.py could be analysed (2 confirmed)')
+    ck.need(n >= 1, f'only {n} placeholder-using functions of summation.py could be analysed (2 on the pinned tree)')
     ck.assume('level bookkeeping, distinct levels, the sum identity of composed circuits and the gate-count bounds are not decided')
     ck.assume('emplace_gate/add_gate refuse existing labels (C02.VALID), so only fresh gates are added and pre-existing gates keep their function')
 
